@@ -122,7 +122,7 @@ impl Model {
     pub fn apply(&mut self, op: &Op) -> Expect {
         let mut ex = Expect::default();
         match op {
-            Op::IterScript { v, script, skips, clone_at, .. } => {
+            Op::IterScript { v, script, skips, clone_at, end, .. } => {
                 ex.nontrivial = !self.vecs[*v].is_empty();
                 let items = self.vecs[*v].clone();
                 let (mut lo, mut hi) = (0usize, items.len());
@@ -153,6 +153,9 @@ impl Model {
                     }
                 }
                 ex.out.lens.push(hi - lo);
+                let (vals, count) = end.expected(&items[lo..hi]);
+                ex.out.vals.extend(vals);
+                ex.out.lens.extend(count);
                 if let Some((a, b)) = cloned {
                     ex.out.lens.push(b - a);
                     ex.out.vals.extend(items[a..b].iter().map(|i| Val::Id(*i)));
@@ -481,6 +484,11 @@ impl Model {
             }
         }
         ex.out.lens.push(hi - lo);
+        if !ex.out.panicked {
+            let (vals, count) = end.expected(&range[lo..hi]);
+            ex.out.vals.extend(vals);
+            ex.out.lens.extend(count);
+        }
         if *end == End::Forget {
             // documented leak: everything at or after the range start may be missing
             ex.leaked.extend_from_slice(&range[lo..hi]);
